@@ -34,7 +34,11 @@ def engine_cases(
     for _ in range(ntok):
         kind = "file" if (file_tokens and chance(draw, 50)) else "proc"
         tok = {"kind": kind, "total": draw(st.integers(1, 4))}
-        if kind == "file" and foreign and chance(draw, 20):
+        if kind == "file" and foreign and chance(draw, 25):
+            # a live foreign job holds [amount] when we open the token; [it releases exactly when one of
+            # our dependencies is being registered or one of our acquisitions is refused]
+            tok["preheld"] = [draw(st.integers(1, tok["total"])), draw(st.booleans())]
+        elif kind == "file" and foreign and chance(draw, 20):
             # a stale token file is there when the token is opened: [amount, removed before the watcher is registered]
             tok["stale"] = [draw(st.integers(1, tok["total"])), draw(st.booleans())]
         toks.append(tok)
@@ -86,8 +90,9 @@ def engine_cases(
         for f in range(draw(st.integers(0, 2)) if chance(draw, 60) else 0):
             ti = draw(st.sampled_from(file_toks))
             dies = draw(st.booleans())
-            extras.append(["facq", f, ti, draw(st.integers(1, toks[ti]["total"])), draw(st.booleans()), dies])
-            if chance(draw, 35):
+            full = chance(draw, 50)  # a holder that takes everything makes our jobs wait for it
+            extras.append(["facq", f, ti, toks[ti]["total"] if full else draw(st.integers(1, toks[ti]["total"])), draw(st.booleans()), dies])
+            if chance(draw, 60):
                 # that holder releases exactly when one of our acquisitions is refused
                 extras.append(["frelrace", f, ti])
             if len(file_toks) > 1 and chance(draw, 50):
@@ -110,6 +115,8 @@ def engine_cases(
     case = {"tokens": toks, "jobs": jobs, "plan": plan, "sched": sched}
     if runs2_pct and chance(draw, runs2_pct):
         case["runs"] = 2
+        if toks and chance(draw, 50):
+            case["share_tokens"] = True
     elif stage2_pct and n >= 2 and chance(draw, stage2_pct):
         # the last k jobs are submitted in a second experiment block of the same process
         k = draw(st.integers(1, n - 1))
@@ -117,7 +124,11 @@ def engine_cases(
         case["plan"] = [op for op in plan if op[0] in ("submit", "wait")]
         for jb in jobs:
             jb.pop("adopt", None)
-            jb["toks"] = []
+        if toks and chance(draw, 60):
+            case["share_tokens"] = True
+        else:
+            for jb in jobs:
+                jb["toks"] = []
     return case
 
 
